@@ -92,7 +92,7 @@ def gen_cases(ctx):
     n = ctx.n(90, 1000)
     out = [make_cases(ctx, "q%d" % j, en, list(fl)) for j, (en, fl) in enumerate(enumgen.load_corpus(PROP))]
     feats = ["kind:" + k for k in enumgen.KIND_NAMES] + ["prefixed", "unprefixed", "accidental-prefix", "multi-file", "placeholder", "carried",
-                                                           "near-dense", "near-dense", "near-dense", "non-ascii", "non-ascii", "non-ascii"]
+                                                           "near-dense", "near-dense", "near-dense", "near-dense", "near-dense", "non-ascii", "non-ascii", "non-ascii"]
     for i in range(n):
         f = feats[i] if i < len(feats) else (ctx.rng.choice(feats) if ctx.rng.random() < 0.25 else None)
         shape = "wf" if f or ctx.rng.random() < 0.75 else ctx.rng.choice(["neg", "neg", "big"])     # negative / > MaxInt64 constants
